@@ -269,7 +269,11 @@ def check(P, R):
         R.ob('C20.e', ij, r, ok, text=f'JSON requested <=> Accept starts with application/json: {short(v)}', detail=det,
              why='when JSON is requested the error body is valid JSON', key_extra='json-detect')
     rc = [c for c in walk_shallow(de.node) if isinstance(c, ast.Call) and dotted(c.func) == 'error_render.render']
-    ok = bool(rc) and len(rc[0].args) == 3 and src(rc[0].args[1]) == 'self.request.url' and src(rc[0].args[2]) == 'self.config.debug'
+    ok = False
+    if rc and len(rc[0].args) == 3:
+        at_ = de.cfg.node_of_stmt(rc[0])[0]
+        ok = any(isinstance(x, ast.Attribute) and dotted(x) == 'self.request.url' for x in de.rd.closure_nodes(rc[0].args[1], at_)) and \
+            any(isinstance(x, ast.Attribute) and dotted(x) == 'self.config.debug' for x in de.rd.closure_nodes(rc[0].args[2], at_))
     R.ob('C20.e', de, rc[0] if rc else de.node, ok, text='render(res, self.request.url, self.config.debug)', detail='' if ok else 'the HTML page is not rendered from (error, url, debug)')
 
 
